@@ -143,6 +143,11 @@ class Binder:
                 return {'k': 'str', 'len': len(o), 'ok': True, 'u': int(m.group(1))}
             body = o[:-1] if o.endswith('Z') else o
             u = 1 if 'é' in o else 0
+            if len(o) >= 3:
+                # texts of three or more characters carry a space in second position (stonegen.concrete_str)
+                if o[1] != ' ':
+                    raise Unprojectable('str %r' % (o,))
+                body = body[0] + body[2:]
             if body.strip('aé') != '' or (u and 'a' in body):
                 raise Unprojectable('str %r' % (o,))
             return {'k': 'str', 'len': len(o), 'ok': not o.endswith('Z'), 'u': u}
